@@ -62,7 +62,7 @@ var (
 	BV16   = BV(16)
 	BV32   = BV(32)
 	BV64   = BV(64)
-	ByteAr = ArrSort(BV64, BV8)  // index -> byte
+	ByteAr = ArrSort(BV64, BV8)    // index -> byte
 	ObjAr  = ArrSort(BV64, ByteAr) // base -> content
 	WordAr = ArrSort(BV64, BV64)
 	BoolAr = ArrSort(BV64, BoolSort)
